@@ -1,10 +1,12 @@
 open Ascii
 open Ast
+open BinNat
 open BinNums
 open Bool
 open Datatypes
 open Json
 open List
+open OutViews
 open State
 open Str
 open String
@@ -36,5 +38,9 @@ type case_result = { cr_relevant : bool; cr_roundtrip : bool;
                      cr_same_status : bool; cr_same_out : bool;
                      cr_same_diag : bool; cr_model_out : jv;
                      cr_model_diags : str list; cr_extra : (str * str) list }
+
+val b2s : bool -> str
+
+val extras : jv -> jv -> (str * str) list
 
 val run_case : jv -> case_result
